@@ -359,7 +359,10 @@ class Driver(object):
             io = rng.choice([(True, False), (True, True), (False, True)])
             return {"op": name, "id": w, "ps": ps, "k": k, "int": io[0], "out": io[1], "token": None}
         if name == "Reopen":
-            return {"op": name, "def": self.default, "rules": sorted(self.ram.items())}
+            rules = sorted(self.ram.items())
+            if rules and rng.random() < self.profile.get("reopen_drop", 0.0):
+                rules.pop(rng.randrange(len(rules)))     # a rule the caller forgot to re-supply
+            return {"op": name, "def": self.default, "rules": rules}
         if name == "Clear":
             rules = []
             if rng.random() < 0.5:
